@@ -541,7 +541,17 @@ def c11_directed_specs(corp, hash_seeds):
             ops.append(op)
         specs.append({"property": "C11", "kind": "api", "hash_seed": nz[ci % len(nz)], "origin": "directed", "label": "corpus-pass-%d" % ci,
                       "knobs": {"step_clock": False, "do_timing": False}, "shared_options": {}, "ops": ops})
-    # a request that FAILS (in every way the corpus knows), compiled compact, then requests that read process-wide state
+    # every corpus entry three times in a row (a compilation that modifies something it got by reference - a cached constexpr
+    # value, a table, a pool - shows when the same request comes again)
+    for ci, chunk in enumerate(_chunks(base, 4)):
+        ops = []
+        for e in chunk:
+            for _ in range(3):
+                op = _op(e, {}, opt_style="obj")
+                op["src_style"] = "dict"
+                ops.append(op)
+        specs.append({"property": "C11", "kind": "api", "hash_seed": 0, "origin": "directed", "label": "thrice-%d" % ci,
+                      "knobs": {"step_clock": False, "do_timing": False}, "shared_options": {}, "ops": ops})
     failing = [i for i in ("E/syntax", "E/syntax_indent", "E/unsupported_class", "E/break_toplevel", "E/recursion_direct", "E/undefined_name",
                            "E/out_of_registers", "E/deep_if", "E/long_expr", "E/huge_pow", "E/div_zero_const", "E/str_too_long", "E/bad_attr",
                            "E/missing_library", "E/library_syntax_error", "E/library_error_far_line", "E/lua", "E/nul_byte", "E/reassign_error",
